@@ -33,7 +33,7 @@ import (
 )
 
 type c09Op struct {
-	K     string `json:"k"` // register | registerSlow | unregister | deliver | pushpull | leave
+	K     string `json:"k"` // register | registerSlow | unregister | deliver | pushpull | pushpullLeave | leave
 	Node  int    `json:"node,omitempty"`
 	To    int    `json:"to,omitempty"`
 	Shard int    `json:"shard,omitempty"`
@@ -330,6 +330,47 @@ func c09Run(c c09Case) (res c09Result) {
 				snap = n.sm.delegate.LocalState(false)
 			}
 			merge(n, to, snap)
+		case "pushpullLeave":
+			// Node's fresh snapshot is being merged at To; the merge makes To give up a superseded claim and is descheduled
+			// inside that eviction ("unregister.window"); meanwhile Node leaves the cluster and every live instance - To
+			// included - processes the leave; then the merge finishes. (A merge that evicts nothing just completes.)
+			to := nodes[((o.To%c.Nodes)+c.Nodes)%c.Nodes]
+			if to == n || n.left || to.left {
+				continue
+			}
+			snap := n.sm.delegate.LocalState(false)
+			gate := make(chan struct{})
+			parked := make(chan struct{})
+			var once sync.Once
+			hk := func(p string) {
+				if p != "unregister.window" {
+					return
+				}
+				first := false
+				once.Do(func() { first = true })
+				if first {
+					close(parked)
+					<-gate
+				}
+			}
+			vfYieldHook.Store(&hk)
+			mdone := make(chan struct{})
+			go func() { merge(n, to, snap); close(mdone) }()
+			select {
+			case <-parked:
+				n.left = true
+				res.classes["leave"] = true
+				res.classes["node_left_while_its_snapshot_was_being_merged"] = true
+				for _, x := range nodes {
+					if x != n && !x.left {
+						x.events.NotifyLeave(&memberlist.Node{Name: n.name})
+					}
+				}
+				close(gate)
+				<-mdone
+			case <-mdone:
+			}
+			vfYieldHook.Store(nil)
 		case "leave":
 			if n.left {
 				continue
@@ -469,7 +510,7 @@ type vfDiscard struct{}
 
 func (vfDiscard) Write(p []byte) (int, error) { return len(p), nil }
 
-const c09Rule = "convergence: 2-3 real shardManagerImpl instances that know each other, 1-2 shards or (one case in twelve) 72 shards with 50-70 of them held by one instance (full state exchange first; in 30% of the histories some directed pairs have not exchanged state yet, so a node can leave before its first snapshot or announcement arrives), 1-2 shards; rapid histories of register / unregister (stream ended) / deliver(any captured real announcement to any recipient the code selected, also repeatedly) / pushpull(current or stale LocalState snapshot through MergeRemoteState) / leave(real NotifyLeave on the others); fairness epilogue: every announcement delivered at least once to every live recipient, then a fresh exchange between every live pair; oracle: per shard at most one live owner and, if a stream is still open, the owner is the node with the newest RegisterShard; nodes that left own nothing in anyone's remote view; remote views equal the others' local sets. routing: every combination of {local stream: none / room / full / closed-but-registered} x {remote owner: unknown / known without address / known with registered peer stream / known but stream missing} x {shutdown signalled} x {shard manager not started / started and the shard claimed / started and the claim just superseded by a peer} x {message, ack, ack without forwarding} through the real Deliver*ToShardOwner; oracle: truth table from the statement, exactly one recipient when true, none when false; non-trivial (convergence) = an older claim delivered after a newer one for the same shard, or a duplicate / stale snapshot after a leave; distinct = distinct histories"
+const c09Rule = "convergence: 2-3 real shardManagerImpl instances that know each other, 1-2 shards or (one case in twelve) 72 shards with 50-70 of them held by one instance (full state exchange first; in 30% of the histories some directed pairs have not exchanged state yet, so a node can leave before its first snapshot or announcement arrives), 1-2 shards; rapid histories of register / unregister (stream ended) / deliver(any captured real announcement to any recipient the code selected, also repeatedly) / pushpull(current or stale LocalState snapshot through MergeRemoteState) / pushpullLeave(a node leaves while its snapshot is being merged at a peer whose merge is parked inside the eviction of a superseded claim) / leave(real NotifyLeave on the others); fairness epilogue: every announcement delivered at least once to every live recipient, then a fresh exchange between every live pair; oracle: per shard at most one live owner and, if a stream is still open, the owner is the node with the newest RegisterShard; nodes that left own nothing in anyone's remote view; remote views equal the others' local sets. routing: every combination of {local stream: none / room / full / closed-but-registered} x {remote owner: unknown / known without address / known with registered peer stream / known but stream missing} x {shutdown signalled} x {shard manager not started / started and the shard claimed / started and the claim just superseded by a peer} x {message, ack, ack without forwarding} through the real Deliver*ToShardOwner; oracle: truth table from the statement, exactly one recipient when true, none when false; non-trivial (convergence) = an older claim delivered after a newer one for the same shard, or a duplicate / stale snapshot after a leave; distinct = distinct histories"
 
 func c09Gen(t *rapid.T) c09Case {
 	c := c09Case{Nodes: rapid.IntRange(2, 3).Draw(t, "nodes"), Shards: rapid.IntRange(1, 2).Draw(t, "shards")}
@@ -498,8 +539,10 @@ func c09Gen(t *rapid.T) c09Case {
 			c.Ops = append(c.Ops, c09Op{K: "unregister", Node: node, Shard: rapid.IntRange(0, c.Shards-1).Draw(t, "shard")})
 		case x < 75:
 			c.Ops = append(c.Ops, c09Op{K: "deliver", To: node, Msg: rapid.IntRange(0, 30).Draw(t, "msg")})
-		case x < 92:
+		case x < 88:
 			c.Ops = append(c.Ops, c09Op{K: "pushpull", Node: node, To: rapid.IntRange(0, c.Nodes-1).Draw(t, "to"), Stale: rapid.SampledFrom([]int{0, 0, 1, 2, 3}).Draw(t, "stale")})
+		case x < 92:
+			c.Ops = append(c.Ops, c09Op{K: "pushpullLeave", Node: node, To: rapid.IntRange(0, c.Nodes-1).Draw(t, "to")})
 		default:
 			c.Ops = append(c.Ops, c09Op{K: "leave", Node: node})
 		}
